@@ -148,8 +148,8 @@ func VF_C10_L1_Isolation() {
 		}
 	}
 	// token reset addressed to one token id
-	cand := []string{"tidA", "tidA2", "tidB"}
-	tid := cand[zzvf.Choose("reset-tid", 3)]
+	cand := []string{"tidA", "tidA2", "tidB", ""}
+	tid := cand[zzvf.Choose("reset-tid", 4)]
 	mark := len(w.mq.reqs)
 	w.mq.event("system", "tokenReset", []byte(`{"tids":["`+tid+`"],"subject":"auth.test.renew"}`))
 	w.settle()
@@ -166,7 +166,7 @@ func VF_C10_L1_Isolation() {
 				n++
 			}
 		}
-		if tids[i] == tid {
+		if tids[i] == tid && tid != "" {
 			zzvf.Assert(n == 1, "token-reset-reaches-the-connection-holding-that-token-id")
 		} else {
 			zzvf.Assert(n == 0, "token-reset-does-not-reach-other-connections")
